@@ -14,14 +14,6 @@ fn shim_u128_from_le_bytes(b: [u8; 16]) -> (r: u128)
     ensures r == le128(b@)
 { u128::from_le_bytes(b) }
 #[verifier::external_body]
-fn shim_u64_to_le_bytes(x: u64) -> (r: [u8; 8])
-    ensures r@ == le_bytes64(x)
-{ x.to_le_bytes() }
-#[verifier::external_body]
-fn shim_u32_to_le_bytes(x: u32) -> (r: [u8; 4])
-    ensures r@ == le_bytes32(x)
-{ x.to_le_bytes() }
-#[verifier::external_body]
 fn shim_i128_ilog2(x: i128) -> (r: u32)
     requires x > 0
     ensures r as int == lg2(x as int)
